@@ -168,13 +168,13 @@ Print Assumptions html_template_atomic_rawtext_partial.
    WfDoc.item (text without '<'; comments; CDATA; doctype in any ASCII case; start tags of ordinary elements with
    valueless / unquoted / single- / double-quoted attributes and any permitted whitespace, closed by '>' or '/>';
    end tags; the raw-text elements style, title, textarea, xmp, iframe in any ASCII case with attributes, non-empty
-   content that contains no "</", and their end tag; svg / math / xml subtrees whose inside contains no double
+   content that contains no "</" (script: no '<'), and their end tag; svg / math / xml subtrees whose inside contains no double
    quote, no NUL and no "</") the lexer, without template delimiters, returns exactly one token per construct
    (one per tag part; raw content as ONE Text token; an svg/math subtree as ONE SVG/Math token), with the right
    type, the bytes of the construct, lower-cased Text()/AttrKey() and verbatim AttrVal(), followed by the
    end-of-input report.  [observe] reads type, token bytes, Text() and (for attributes) AttrVal() after each call.
-   NOT covered by this theorem (correspondence + Go oracle only): script and plaintext, raw content that is empty or
-   contains "</" (html_rawtext_never_markup says where such content ends), svg/math with double quotes or nested
+   NOT covered by this theorem (correspondence + Go oracle only): script content containing '<', plaintext, raw
+   content that is empty or contains "</" (html_rawtext_never_markup says where such content ends), svg/math with double quotes or nested
    end tags inside, bogus comments, text containing a '<' that opens nothing, names containing '/', templates. *)
 Theorem html_wellformed_tokens_partial :
   forall items, wf_doc items ->
